@@ -50,6 +50,9 @@ def docs(ctx, n):
             for i in range(len(lines)):
                 if ctx.rng.random() < 0.15:
                     lines[i] = ""
+                elif ctx.rng.random() < 0.10:
+                    # a line of white space only that is not a Markdown blank line (NBSP, ideographic / em space, separators, NEL)
+                    lines[i] = "".join(ctx.rng.choice(["\u00a0", "\u3000", "\u2003", "\x1c", "\x1d", "\x1f", "\x85", "\u2028", "\ufeff", "\u200b"]) for _ in range(ctx.rng.randint(1, 3)))
                 elif ctx.rng.random() < 0.15:
                     lines[i] = ctx.rng.choice(["> ", "- ", "  ", "1. "]) + lines[i]
                 if ctx.rng.random() < 0.2:
